@@ -125,6 +125,8 @@ type Cluster struct {
 	// SlowKeyspaces makes `USE ks` take that long to be answered (the connection stays responsive meanwhile).
 	SlowKeyspaces map[string]time.Duration
 	OnConnect        func(c *Conn)
+	// StartupHandler may override the answer to STARTUP (a node that is not ready to serve yet).
+	StartupHandler func(c *Conn, header *frame.Header) (Response, bool)
 	// OptionsHandler may override the answer to OPTIONS (heart-beats).
 	OptionsHandler func(c *Conn, header *frame.Header) (Response, bool)
 	// AfterRegister runs right after a REGISTER was acknowledged (an event can follow immediately).
@@ -206,6 +208,13 @@ func (cl *Cluster) SetSlowKeyspace(name string, d time.Duration) {
 
 // SetMissingKeyspace makes `USE <name>` fail from now on.
 func (cl *Cluster) SetMissingKeyspace(name string) { cl.mu.Lock(); cl.MissingKeyspaces[name] = true; cl.mu.Unlock() }
+
+// SetStartupHandler installs a handler that may answer STARTUP itself.
+func (cl *Cluster) SetStartupHandler(f func(c *Conn, header *frame.Header) (Response, bool)) {
+	cl.mu.Lock()
+	cl.StartupHandler = f
+	cl.mu.Unlock()
+}
 
 // SetOnConnect installs a callback that sees every accepted connection before it is served.
 func (cl *Cluster) SetOnConnect(f func(c *Conn)) { cl.mu.Lock(); cl.OnConnect = f; cl.mu.Unlock() }
@@ -447,6 +456,15 @@ func (c *Conn) handle(rawHdr, rawBody []byte) {
 				"CQL_VERSION": {"3.4.5"}, "COMPRESSION": {"lz4", "snappy"}}})
 			return
 		case *message.Startup:
+			cl.mu.Lock()
+			sh := cl.StartupHandler
+			cl.mu.Unlock()
+			if sh != nil {
+				if r, ok := sh(c, header); ok {
+					c.respond(header, r)
+					return
+				}
+			}
 			c.mu.Lock()
 			c.Version = header.Version
 			c.mu.Unlock()
